@@ -266,3 +266,16 @@ V("c11-preserving-rng-renamed", "C11", "silent",
   (GSS, "    rng = np.random.default_rng(seed)\n\n    possible_choices", "    generator = np.random.default_rng(seed)\n    rng = generator\n\n    possible_choices"))
 V("c11-preserving-private-generator-in-result", "C11", "silent",
   ("piquasso/api/result.py", "        r = random.Random(self._config.seed_sequence)\n        r.shuffle(_samples)", "        shuffler = random.Random(self._config.seed_sequence)\n        shuffler.shuffle(_samples)"))
+
+# ------------------------------------------------------------------------------------------- C16
+PSTEPS = "piquasso/_simulators/passive/simulation_steps.py"
+V("c16-fullness-test-set", "C16", {"rule": "C16a", "contains": "set(modes)"},
+  (PSTEPS, "    marginal_sampling = tuple(modes) != tuple(range(state.d))", "    marginal_sampling = set(modes) != set(range(state.d))"))
+V("c16-sorted-modes-purefock", "C16", {"rule": "C16b", "contains": "sorted"},
+  ("piquasso/_simulators/fock/pure/simulation_steps/__init__.py", "    reduced_state = state.reduced(instruction.modes)\n", "    reduced_state = state.reduced(tuple(sorted(instruction.modes)))\n"))
+V("c16-unique-modes-helper", "C16", {"rule": "C16b", "contains": "unique"},
+  ("piquasso/_simulators/gaussian/simulation_steps.py", "def _map_modes_to_xpxp_indices(modes):\n    indices = []\n", "def _map_modes_to_xpxp_indices(modes):\n    modes = np.unique(modes)\n    indices = []\n"))
+V("c16-preserving-distinctness-set", "C16", "silent",
+  (PSTEPS, "    modes = instruction.modes\n\n    # NOTE: The comparison", "    modes = instruction.modes\n    assert len(set(modes)) == len(modes)\n\n    # NOTE: The comparison"))
+V("c16-preserving-list-wrap", "C16", "silent",
+  (PSTEPS, "    marginal_sampling = tuple(modes) != tuple(range(state.d))", "    marginal_sampling = list(modes) != list(range(state.d))"))
